@@ -25,9 +25,8 @@ import SphericalVerif.Lemmas.DDef2
     symmetries is a member, for every c, s, and every member equals it.  Hence `IsGDFamily c s H` says precisely
     "H is the fixed point of the recursion the code implements", in the vocabulary of the paper.
 
-    NOT proved here (it is the mathematical hypothesis): that ε(m') ε(−m) d^ℓ_{m',m}(β) — with d the documented
-    Wigner d — is a Gumerov–Duraiswami family for ℓ ≥ 3.  For ℓ ≤ 2 and on the poles β ∈ {0, π} (every ℓ) the
-    values forced by the relations are the documented ones (section 4). -/
+    Proved in `Props/DocD.lean` (not here): ε(m') ε(−m) d^ℓ_{m',m}(β) — with d the documented Wigner d — IS a
+    Gumerov–Duraiswami family for every ℓ (`DocD.isGDFamily_doc`), which makes the identification unconditional. -/
 noncomputable section
 namespace GDFamily
 open Model Spec
